@@ -467,12 +467,20 @@ def selftest_determinism(pid, mod, tier, seed, k=6, fresh=True):
     return info
 
 
-def print_digests(pid, tier, seed, k):
+def print_digests(pid, tier, seed, k, order="fwd"):
+    """digests of k fixed cases, computed in forward or reverse order but always printed in case order:
+    any dependence on what ran before in the same process shows up as a difference"""
     mod = load_check(pid)
-    for i in range(k):
+    idx = list(range(k))
+    if order == "rev":
+        idx.reverse()
+    out = {}
+    for i in idx:
         cs = case_seed(seed, pid, 1000003 + i)
         _t, r = run_one(mod, tier, seed=cs)
-        print("D " + r.event_digest + r.scen_digest)
+        out[i] = r.event_digest + r.scen_digest
+    for i in range(k):
+        print("D " + out[i])
     return 0
 
 
